@@ -113,6 +113,33 @@ fn iter_case(rep: &mut Report, toks: &[Token]) {
     }
 }
 
+/// One correspondence case for the lexer + condense model (Model/C12Doc.run_doc / run_raw, i.e. C02's frozen
+/// Lexer.v / Condense.v as kind classes — the model C12_condense_split and C12_doc_tokens_split speak about):
+/// the tokens of an ASCII text as class code, span and twin_loc + 1.
+fn doc_case(rep: &mut Report, tag: char, text: &str, toks: &[Token]) {
+    if !text.is_ascii() {
+        rep.count("doc_case:skipped_non_ascii");
+        return;
+    }
+    let mut line = format!("{tag}");
+    for c in text.chars() {
+        line.push_str(&format!(" {}", c as u32));
+    }
+    let mut out = format!("{tag}");
+    if toks.is_empty() {
+        out.push_str(" -");
+    }
+    for t in toks {
+        let w = match &t.kind {
+            TokenKind::Punctuation(Punctuation::Quote(q)) => q.twin_loc.map(|j| j + 1).unwrap_or(0),
+            _ => 0,
+        };
+        out.push_str(&format!(" {} {} {} {}", class_code(class_of(&t.kind)), t.span.start, t.span.end, w));
+    }
+    rep.count(if tag == 'T' { "doc_case:document" } else { "doc_case:raw" });
+    rep.case(&line, &out);
+}
+
 /// One correspondence case for the modelled rule body (ParaSplit.long_sentences, extracted as run_long):
 /// the spans LongSentences reports on this document.
 fn long_case(rep: &mut Report, doc: &Document) {
@@ -426,6 +453,12 @@ fn check_tokens(rep: &mut Report, cx: &Ctx, p: &str, d: &str, origin: &str) -> b
     }
     // correspondence cases for the iterators, on real token lists
     if rep.n_cases < 200_000 {
+        // ... and for the lexer + condense model the split theorems are about: P, D and P++D
+        doc_case(rep, 'T', &whole.iter().collect::<String>(), dw.get_tokens());
+        doc_case(rep, 'T', &p2, tp);
+        doc_case(rep, 'T', &d2, dd.get_tokens());
+        doc_case(rep, 'L', &p2, &rp);
+        doc_case(rep, 'L', &d2, &rd);
         iter_case(rep, dw.get_tokens());
         if dw.get_tokens().len() != tp.len() {
             iter_case(rep, tp);
